@@ -5,3 +5,11 @@ chk("C02", "static analysis: MIR gated-path decision tables vs std slice-indexin
     "cannot enumerate. Any change of offset, count, guard direction, fallback or argument order is a mismatch.",
     "Trusted: rustc MIR construction; the models of len/overflowing_sub/as_ptr/offset/from_raw_parts; the arithmetic fact "
     "(len/N)*N <= len and len%N <= len for the chunk functions.")
+chk("C03", "static analysis: exact byte-class computation + MIR decision tables vs str::get / is_char_boundary",
+    "The byte class tested by the boundary predicates is computed exactly over all 256 bytes and must equal the "
+    "non-continuation bytes; the strict/forgiving predicates, get_up_to/get_from/get_range and the clamping "
+    "str_up_to/str_from/str_range/split_at are compared (callees inlined to raw views) with std's str::get / documented "
+    "clamping / panic-inside-a-char rule for every order type of (len,start,end) x boundary-ness of each indexed byte. "
+    "Symbolic in the string, so all strings and indices are covered.",
+    "Trusted: rustc MIR; models of len/as_bytes/from_raw_parts. Not decided: the two boundary *search* loops "
+    "(__find_next/prev_char_boundary) beyond what C07 checks.")
